@@ -247,7 +247,7 @@ func (fr *Frame) instr(n *unode, s *State, g *Term, ins ssa.Instruction, rets *[
 		for _, r := range ins.Results {
 			rs = append(rs, val(r))
 		}
-		*rets = append(*rets, &retInfo{st: s, guard: g, results: rs})
+		*rets = append(*rets, &retInfo{st: s, guard: g, results: rs, pos: ins.Pos()})
 		return false
 	case *ssa.Panic:
 		mp := false
